@@ -5,5 +5,6 @@ CONSTANTS
   Kinds = {"plain"}
   CloseTarget = "own"
   RegisterGuard = TRUE
+  Record = TRUE
 INVARIANTS ServingWhileRunning RegistryExact StopPostcondition Export
 CHECK_DEADLOCK FALSE
